@@ -2,7 +2,7 @@
    pkglint's autofix (C05).
 
    Go code modelled (one definition per function, same case structure):
-     v23/path.go     CurrPath.WriteString -> os.WriteFile   = write_file
+     v23/path.go     CurrPath.WriteString -> os.WriteFile   = write_file (no longer used by the save)
                      CurrPath.Rename      -> os.Rename      = sys (Rename a b)
                      CurrPath.Chmod       -> os.Chmod       = sys (Chmod p m)
      v23/autofix.go  SaveAutofixChanges, loop over `changed` = save_one / run
@@ -70,12 +70,13 @@ Definition fd_unlinked (p : path) (t : fdtab) : fdtab :=
 
 Record state := mkstate { st_fs : fsmap; st_fds : fdtab; st_umask : N }.
 
-Inductive errno := ENOENT | EBADF | ENOSPC | EIO | EACCES | EXDEV.
+Inductive errno := ENOENT | EBADF | ENOSPC | EIO | EACCES | EXDEV | EEXIST.
 
 (* ---------- operations = the mutating system calls ---------- *)
 
 Inductive op :=
-| Open (fd : N) (p : path) (perm : N)  (* openat(p, O_WRONLY|O_CREAT|O_TRUNC, perm) = fd *)
+| Open (fd : N) (p : path) (perm : N)  (* openat(p, O_WRONLY|O_CREAT|O_TRUNC, perm) = fd; only in the refuted variants *)
+| OpenExcl (fd : N) (p : path) (perm : N) (* openat(p, O_WRONLY|O_CREAT|O_EXCL, perm) = fd *)
 | Write (fd : N) (data : str)          (* write(fd, data) = |data| *)
 | Close (fd : N)
 | Rename (a b : path)                  (* renameat(a, b) *)
@@ -92,6 +93,13 @@ Definition step (s : state) (o : op) : state * option errno :=
              | None => mkfile [] (N.ldiff perm (st_umask s))         (* O_CREAT: perm &^ umask *)
              end in
     (mkstate (set p f (st_fs s)) (fd_set fd (Some p) (st_fds s)) (st_umask s), None)
+  | OpenExcl fd p perm =>
+    match lookup p (st_fs s) with
+    | Some _ => (s, Some EEXIST)                                    (* O_EXCL: never touches an existing file *)
+    | None =>
+      (mkstate (set p (mkfile [] (N.ldiff perm (st_umask s))) (st_fs s))
+               (fd_set fd (Some p) (st_fds s)) (st_umask s), None)
+    end
   | Write fd data =>
     match fd_lookup fd (st_fds s) with
     | None => (s, Some EBADF)
@@ -198,16 +206,41 @@ Definition write_file (name : path) (data : str) (perm : N) (w : world) : world 
 Definition tmp_suffix : str := [46; 112; 107; 103; 108; 105; 110; 116; 46; 116; 109; 112]. (* ".pkglint.tmp" *)
 Definition tmp_name (f : path) : path := f ++ tmp_suffix.
 
-(* SaveAutofixChanges for lines of one changed file: `autofixed` starts false,
-   then the body of `for filename := range changed` *)
+(* SaveAutofixChanges for lines of one changed file (after the three repairs:
+   exclusive creation of the temporary file, mode of the original carried over,
+   temporary file removed when the save fails):
+
+     tmpFile, err := os.OpenFile(tmpName, O_WRONLY|O_CREATE|O_EXCL, 0666)
+     if err != nil { TechErrorf(tmpName, "Cannot write"); continue }
+     _, err = tmpFile.WriteString(text)
+     if closeErr := tmpFile.Close(); err == nil { err = closeErr }
+     if st, statErr := filename.Stat(); err == nil && statErr == nil { err = tmpName.Chmod(st.Mode().Perm()) }
+     if err != nil { TechErrorf(tmpName, "Cannot write"); _ = os.Remove(tmpName); continue }
+     err = tmpName.Rename(filename)
+     if err != nil { TechErrorf(tmpName, "Cannot overwrite ..."); _ = os.Remove(tmpName); continue }
+     autofixed = true
+
+   Stat is not a mutating call: it is a lookup in the current state. *)
 Definition save_one (f : path) (new : str) (w : world) : world :=
   let tmp := tmp_name f in
-  match write_file tmp new 438 (* 0666 *) (set_saved false w) with
-  | (w1, Some _) => tech_error CannotWrite tmp w1              (* continue *)
+  match sys (OpenExcl 0 tmp 438 (* 0666 *)) (set_saved false w) with
+  | (w1, Some _) => tech_error CannotWrite tmp w1                       (* continue *)
   | (w1, None) =>
-    match sys (Rename tmp f) w1 with
-    | (w2, Some _) => tech_error CannotOverwrite tmp w2        (* continue *)
-    | (w2, None) => set_saved true w2                          (* autofixed = true *)
+    let (w2, err) := sys (Write 0 new) w1 in
+    let (w3, err1) := sys (Close 0) w2 in
+    let err' := match err with Some e => Some e | None => err1 end in
+    let (w4, err'') :=
+      match err', lookup f (st_fs (w_st w3)) with
+      | None, Some old => sys (Chmod tmp (f_mode old)) w3
+      | _, _ => (w3, err')
+      end in
+    match err'' with
+    | Some _ => fst (sys (Unlink tmp) (tech_error CannotWrite tmp w4))  (* continue *)
+    | None =>
+      match sys (Rename tmp f) w4 with
+      | (w5, Some _) => fst (sys (Unlink tmp) (tech_error CannotOverwrite tmp w5))  (* continue *)
+      | (w5, None) => set_saved true w5                                 (* autofixed = true *)
+      end
     end
   end.
 
@@ -243,24 +276,45 @@ Definition init_world (s : state) (plan : option (nat * fault)) : world :=
 
 (* ---------- the same protocol as a plain list (no fault) ---------- *)
 
-Definition save_ops (f : path) (new : str) : list op :=
-  [Open 0 (tmp_name f) 438; Write 0 new; Close 0; Rename (tmp_name f) f].
-
-(* without a fault every save succeeds (Proofs: run_nofault), so the condition of
-   AIfSaved is known: `saved` = has the latest save succeeded *)
-Fixpoint prog_ops_from (saved : bool) (prog : list action) : list op :=
-  match prog with
-  | [] => []
-  | ASave f new :: rest => save_ops f new ++ prog_ops_from true rest
-  | AChmod f mode :: rest => Chmod f (N.ldiff mode 73) :: prog_ops_from saved rest
-  | AIfSaved b f new :: rest =>
-    if Bool.eqb saved b then save_ops f new ++ prog_ops_from true rest
-    else prog_ops_from saved rest
+(* the system calls of one save that meets no error, in state s: when the temporary
+   name is taken the exclusive open fails and that is all; the mode is carried over
+   when the original exists *)
+Definition save_ops (s : state) (f : path) (new : str) : list op :=
+  match lookup (tmp_name f) (st_fs s) with
+  | Some _ => [OpenExcl 0 (tmp_name f) 438]
+  | None =>
+    [OpenExcl 0 (tmp_name f) 438; Write 0 new; Close 0] ++
+    match lookup f (st_fs s) with
+    | Some old => [Chmod (tmp_name f) (f_mode old)]
+    | None => []
+    end ++ [Rename (tmp_name f) f]
   end.
 
-Definition prog_ops (prog : list action) : list op := prog_ops_from false prog.
+Definition save_succeeds (s : state) (f : path) : bool :=
+  match lookup (tmp_name f) (st_fs s) with Some _ => false | None => true end.
+
+(* without a fault the only error a save can meet is EEXIST (Proofs: run_nofault), so
+   the condition of AIfSaved is known from the state *)
+Fixpoint prog_ops_from (saved : bool) (s : state) (prog : list action) : list op :=
+  match prog with
+  | [] => []
+  | ASave f new :: rest =>
+    save_ops s f new ++ prog_ops_from (save_succeeds s f) (exec (save_ops s f new) s) rest
+  | AChmod f mode :: rest =>
+    Chmod f (N.ldiff mode 73) :: prog_ops_from saved (exec [Chmod f (N.ldiff mode 73)] s) rest
+  | AIfSaved b f new :: rest =>
+    if Bool.eqb saved b
+    then save_ops s f new ++ prog_ops_from (save_succeeds s f) (exec (save_ops s f new) s) rest
+    else prog_ops_from saved s rest
+  end.
+
+Definition prog_ops (s : state) (prog : list action) : list op := prog_ops_from false s prog.
 
 (* ---------- other ways to write the file, all refuted by the crash spec ---------- *)
+
+(* the protocol before the repair: the temporary file is opened with O_TRUNC *)
+Definition trunc_tmp_ops (f : path) (new : str) : list op :=
+  [Open 0 (tmp_name f) 438; Write 0 new; Close 0; Rename (tmp_name f) f].
 
 Definition inplace_ops (f : path) (new : str) : list op :=
   [Open 0 f 438; Write 0 new; Close 0].
